@@ -371,12 +371,19 @@ func applyC13(t *rapid.T, base World, kind string) (World, bool) {
 		if idx < 0 {
 			return w, false
 		}
-		for _, k := range []string{core.KKU, core.KSAN, core.KBC, core.KEKU} {
-			if k != l.Extensions[idx].Kind {
-				l.Extensions[idx].Kind = k
-				break
+		// preferably a kind another entry of the list already has (the set of kinds stays the same, the list does not)
+		var cands []string
+		for i, x := range l.Extensions {
+			if i != idx && x.Kind != core.KCUSTOM && x.Kind != l.Extensions[idx].Kind {
+				cands = append(cands, x.Kind)
 			}
 		}
+		for _, k := range []string{core.KKU, core.KSAN, core.KBC, core.KEKU} {
+			if k != l.Extensions[idx].Kind {
+				cands = append(cands, k)
+			}
+		}
+		l.Extensions[idx].Kind = cands[rapid.IntRange(0, len(cands)-1).Draw(t, "swap-to")]
 	case "edit:ext-add":
 		l.Extensions = append(l.Extensions, core.Extension{Kind: core.KCUSTOM, OID: "1.2.3.4.5.6", Raw: core.Bin([]byte{1})})
 	case "edit:ext-remove":
@@ -530,6 +537,19 @@ func TestC13(t *testing.T) {
 			lf.Extensions = append(lf.Extensions, bc)
 			if after, ok := applyC13(t, base, "edit:bc-pathlen-zero"); ok {
 				return c13Case{Base: base, Kind: "edit:bc-pathlen-zero", After: after}
+			}
+		}
+		if rapid.IntRange(0, 9).Draw(t, "with-repeated-kinds") == 0 {
+			// raw-only entries with repeated kinds: moving one of them to a kind that is already there changes the certificate
+			lf := target(&base)
+			ka, kb := core.KKU, core.KEKU
+			if rapid.Bool().Draw(t, "rk-swap") {
+				ka, kb = core.KSAN, core.KCP
+			}
+			lf.Extensions = []core.Extension{{Kind: ka, Raw: core.Bin([]byte{3, 2, 1, 6})}, {Kind: kb, Raw: core.Bin([]byte{48, 0})}, {Kind: ka, Raw: core.Bin([]byte{3, 2, 7, 128})}}
+			lf.Profile = ""
+			if after, ok := applyC13(t, base, "edit:ext-kind-swap"); ok {
+				return c13Case{Base: base, Kind: "edit:ext-kind-swap", After: after}
 			}
 		}
 		if rapid.IntRange(0, 9).Draw(t, "with-profile-validity") == 0 {
